@@ -7,4 +7,6 @@ export GOCACHE=/verif/.cache/go-build
 mkdir -p /verif/bin /verif/evidence
 cp /repo/go.sum /verif/harness/go.sum 2>/dev/null || true
 go build -tags verif -o /verif/bin/check ./cmd/check
+# warm the -race standard library for C14 (first -race build is slow)
+go build -race -tags verif -o /verif/bin/check_racewarm ./cmd/check && rm -f /verif/bin/check_racewarm
 echo setup ok
